@@ -35,6 +35,15 @@ func ruleQueryEdits(c *Ctx) {
 				case *ssa.MapUpdate:
 					if isURLValues(x.Map.Type()) {
 						n++
+						// q[k] = append(q[k], vs...) is what Values.Add does
+						if call, ok := x.Value.(*ssa.Call); ok {
+							if bi, ok := call.Call.Value.(*ssa.Builtin); ok && bi.Name() == "append" && len(call.Call.Args) > 0 {
+								if lk, ok := call.Call.Args[0].(*ssa.Lookup); ok && lk.X == x.Map && lk.Index == x.Key {
+									adds++
+									continue
+								}
+							}
+						}
 						bad = append(bad, c.P.pos(x.Pos())+": a key of the request's query is assigned (the client's own values of that parameter are replaced)")
 					}
 				case *ssa.Store:
@@ -79,6 +88,9 @@ func ruleQueryEdits(c *Ctx) {
 						bad = append(bad, "url.Values."+e.Callee.Name()+" (through a method value) drops the client's own values of that parameter")
 					}
 				}
+			}
+			if e.Kind == "mapupdate" && e.Val != nil && e.Val.contains(func(x *Term) bool { return (x.Op == "fa" || x.Op == "fld") && x.Name == "Query" }) {
+				src = true
 			}
 			if e.Kind == "call" && e.Callee != nil && e.Callee.String() == "(net/url.Values).Add" {
 				for _, a := range e.Args[1:] {
@@ -664,7 +676,7 @@ func ruleForwarders(c *Ctx, pkgs ...string) {
 			paths++
 			var calls []*Event
 			for _, e := range pr.Events {
-				if (e.Kind == "call" || e.Kind == "invoke") && e.Callee != nil && isPikeFunc(e.Callee) && e.Callee.Name() != fs.conv {
+				if (e.Kind == "call" || e.Kind == "invoke") && e.Callee != nil && isPikeFunc(e.Callee) && e.Callee.Name() != fs.conv && !inPkg(e.Callee, "log") {
 					calls = append(calls, e)
 				}
 				if e.Kind == "go" || e.Kind == "defer" || e.Kind == "store" {
@@ -777,8 +789,20 @@ func ruleServerClose(c *Ctx) {
 			}
 		}
 		closes := 0
+		lnClosed := false
 		locked := false
 		for _, e := range pr.Events {
+			if (e.Kind == "invoke" || e.Kind == "call") && len(e.Args) > 0 {
+				nm := ""
+				if e.Callee != nil {
+					nm = e.Callee.Name()
+				} else if e.Method != nil {
+					nm = e.Method.Name()
+				}
+				if nm == "Close" && e.Args[0].contains(func(x *Term) bool { return x.Op == "fa" && x.Name == "ln" }) {
+					lnClosed = true
+				}
+			}
 			switch {
 			case e.calleeIs("(*sync.Mutex).Lock", "(*sync.RWMutex).Lock"):
 				locked = true
@@ -818,6 +842,12 @@ func ruleServerClose(c *Ctx) {
 		}
 		if closes == 0 {
 			bad = append(bad, "a listening server is not closed on "+where)
+		}
+		// when Close reports success the listener itself has been closed (the port is free again)
+		if len(pr.Results) == 1 && !lnClosed {
+			if k, isNil := pr.Facts.Decide(eqTerm(pr.Results[0], nilTerm(nil))); pr.Results[0].IsNil() || (k && isNil) || !k {
+				bad = append(bad, "Close can return success without having closed the server's listener (the removed server keeps its port and keeps accepting) on "+where)
+			}
 		}
 	})
 	if closing == 0 {
@@ -912,6 +942,19 @@ func ruleConfigClients(c *Ctx) {
 						}
 						if !d.IsNil() && !fromCall(d) {
 							bad = append(bad, "returns data "+prettyTerm(d)+" that was not read from the back end on "+where)
+						}
+						// … and exactly those bytes: selecting a part of the answer is fine, passing it through a function is not
+						if !d.IsNil() && fromCall(d) {
+							t := d
+							for t != nil && t.Key() != addrCall.Result.Key() {
+								switch {
+								case (t.Op == "ext" || t.Op == "fld" || t.Op == "idx" || t.Op == "init" || t.Op == "fa" || t.Op == "ia" || t.Op == "conv") && len(t.Args) > 0:
+									t = t.Args[0]
+								default:
+									bad = append(bad, "returns "+prettyTerm(d)+": the bytes read are altered before they are handed back (save-then-read no longer returns what was saved) on "+where)
+									t = nil
+								}
+							}
 						}
 					}
 				}
